@@ -703,6 +703,11 @@ func (c *EvalCtx) evalCall(e *Expr) TVal {
 	case "in":
 		m := c.eval(e.Args[0])
 		k := c.eval(e.Args[1])
+		if m.Type == nil {
+			// (the map expression did not resolve, e.g. it names a local that no longer exists)
+			c.errf("in() on an expression without a type")
+			return c.mk("false", sBool, tb)
+		}
 		mt, ok := m.Type.Underlying().(*types.Map)
 		if !ok {
 			c.errf("in() on non-map")
